@@ -95,7 +95,7 @@ def art_deep(tier):
                     files={"roots.ndjson": roots_ndjson(pick)}, workers=8, tag="deep", timeout=4 * 3600, heap="12g")
 
 
-def chess_replay(arts, props, perft=0, timeout=3600):
+def chess_replay(arts, props, perft=0, timeout=3600, thin=1):
     """Replays chess artefacts into the engine. Artefacts generated from the same root list are replayed together (one
     driver run: transpositions and keys are compared across them); the results of the groups are merged."""
     import shutil
@@ -120,7 +120,7 @@ def chess_replay(arts, props, perft=0, timeout=3600):
             gperft = min(perft, max(tree_depth(a) for a in grp))
             args = ["chess-replay", "-roots", os.path.join(grp[0], "roots.ndjson"),
                     "-obs", ",".join(vlib.art_out(a) for a in grp), "-props", ",".join(props),
-                    "-perft", gperft, "-seed", SEED, "-out", out]
+                    "-perft", gperft, "-seed", SEED, "-thin", thin, "-out", out]
             res = vlib.run_driver(args, timeout=timeout, cwd=run)
         finally:
             shutil.rmtree(run, ignore_errors=True)
@@ -262,14 +262,14 @@ def deep_replay(ck, prop, tier):
     ck.cov["counters"]["deep_walk_nodes"] = res["counters"].get("nodes", 0)
 
 
-def std_chess_check(prop, tier, art_names, perft=0, level="model_checking", extra=None):
+def std_chess_check(prop, tier, art_names, perft=0, level="model_checking", extra=None, thin=1):
     ck = Check(prop, tier, level)
     arts = shared(tier)
     use = [arts[n] for n in art_names] + (arts.get("tree3", []) if "tree" in art_names else [])
     use += [arts[x] for x, base in (("treex", "tree"), ("attx", "att")) if base in art_names and x in arts]
     for a in use:
         ck.add_tlc(a)
-    res = chess_replay(use, [prop], perft=perft)
+    res = chess_replay(use, [prop], perft=perft, thin=thin, timeout=3 * 3600)
     ck.add_result(res)
     cnt = res["counters"]
     ck.cov["evaluations"] = sum(v for k, v in cnt.items() if k.startswith(prop + ".") and not k.endswith("nontrivial"))
@@ -399,7 +399,8 @@ def check_C15(tier):
         n = res["counters"].get("C15.insufficient_positions", 0)
         ck.cov["counters"]["C15.insufficient_material_configurations"] = n
         ck.cov["evaluations"] += n
-    ck = std_chess_check("C15", tier, ["tree", "walk"], extra=dead_material)
+    # (thorough tier: every eighth node of the 3.5 million walk nodes - each costs some forty evaluations and a replay of its path)
+    ck = std_chess_check("C15", tier, ["tree", "walk"], extra=dead_material, thin=1 if tier == "quick" else 8)
     ck.cov["rule"] += "; every material configuration of Material.tla that the engine calls insufficient must evaluate to 0"
     return ck.finish()
 
